@@ -64,10 +64,10 @@ Proof. exact full_path_wins. Qed.
 Print Assumptions C14_full_path_wins.
 
 (* ---- C14_choice_spec, in five parts *)
-(* refused as unknown iff nothing matches *)
+(* refused as unknown iff nothing matches (in particular when the master has no parameter at all) *)
 Theorem C14_choice_unknown : forall home targets levels s,
   decide_for home targets levels s = Ok Unknown <->
-  targets <> [] /\ forall t, In t targets -> get_path_score home s t = 0.
+  forall t, In t targets -> get_path_score home s t = 0.
 Proof. exact decide_for_unknown. Qed.
 Print Assumptions C14_choice_unknown.
 
@@ -100,9 +100,9 @@ Theorem C14_choice_ambiguous : forall home targets levels s c,
 Proof. exact decide_for_ambiguous. Qed.
 Print Assumptions C14_choice_ambiguous.
 
-(* there is no fifth outcome when the master has a parameter *)
+(* there is no fifth outcome, whatever the target list (empty included) *)
 Theorem C14_choice_total : forall home targets levels s,
-  targets <> [] -> length levels = length targets ->
+  length levels = length targets ->
   exists d, decide_for home targets levels s = Ok d.
 Proof. exact decide_for_total. Qed.
 Print Assumptions C14_choice_total.
@@ -158,6 +158,14 @@ Theorem C14_flag_argument : forall isfile w,
 Proof. exact prep_flag. Qed.
 Print Assumptions C14_flag_argument.
 
+(* ---- a master without any active definition refuses every argument as unknown (the code's
+   max(scores, default=0); before the repair this was a ValueError) *)
+Theorem C14_empty_master_unknown : forall home master s r,
+  all_definitions master = Ok [] ->
+  process_arg_paths home master (s :: r) = ([], EUnknown s).
+Proof. exact empty_master_unknown. Qed.
+Print Assumptions C14_empty_master_unknown.
+
 (* ---- defects of the unchanged code, with concrete witnesses *)
 (* F13: the same path twice among the targets: the full path "m" is refused as ambiguous between m and m *)
 Theorem C14_refuted_duplicate_path :
@@ -173,12 +181,6 @@ Theorem C14_refuted_outsider_wins :
   process_arg_paths None outsider_master [s_ "b"] = ([s_ "z.ab"], EOk [(2%nat, s_ "z.ab")]).
 Proof. exact outsider_wins. Qed.
 Print Assumptions C14_refuted_outsider_wins.
-
-(* a master without an active definition: max() of an empty list instead of a refusal *)
-Theorem C14_refuted_empty_master :
-  process_arg_paths None empty_master [s_ "a"] = ([], ECrash (s_ "ValueError")).
-Proof. exact empty_master_crashes. Qed.
-Print Assumptions C14_refuted_empty_master.
 
 (* ---- non-vacuity *)
 Example C14_example_scores :
@@ -199,6 +201,11 @@ Example C14_example_tiebreak :
   /\ decide_for None [s_ "x.a"; s_ "y.a"; s_ "z.ab"] [1; 1; 0] (s_ "a") = Ok (Ambiguous [s_ "x.a"; s_ "y.a"])
   /\ decide_for None [s_ "x.a"; s_ "y.a"; s_ "z.ab"] [1; 1; 0] (s_ "c") = Ok Unknown.
 Proof. vm_compute. auto. Qed.
+
+Example C14_example_empty_master :
+  all_definitions empty_master = Ok [] /\
+  process_arg_paths None empty_master [s_ "a"] = ([], EUnknown (s_ "a")).
+Proof. exact empty_master_example. Qed.
 
 Example C14_example_args :
   process_args (fun _ => false) (fun t => Ok t) false
